@@ -53,6 +53,8 @@ func runC26(c *core.Ctx) {
 	c.Rule("JSONRT", "the JSON-encoded expression type graph loses nothing but what REPOP restores")
 	c.Rule("USE", "decoded expressions are repopulated (failure handled) before use")
 	c.Rule("PAN5", "codec switches are exhaustive")
+	c.Rule("WIRESTR", "string values travel as bytes")
+	checkWireStringFields(c)
 	checkCodecPair(c, "NativeValueToProto", "(*Value).ToNativeValue")
 	checkCodecPair(c, "NativeTypeToProto", "(*Type).ToNativeType")
 	checkMessagePairs(c)
@@ -931,4 +933,66 @@ func checkRepopulatedUse(c *core.Ctx) {
 	}
 	c.Floor("USE", 3, "host decodes rejected and pushed-down predicates; the plugin decodes pushed-down predicates for Materialize")
 	_ = n
+}
+
+// checkWireStringFields (WIRESTR): octosql strings are byte strings — datasources build them from raw file bytes and
+// string literals keep whatever bytes the query text has. A proto3 `string` field must hold valid UTF-8: Marshal
+// rejects anything else ("string field contains invalid UTF-8"), and JSON transport replaces the bytes with U+FFFD.
+// So the message field that carries Value.Str has to be `bytes` ([]byte in the generated struct); with a Go string
+// there a value such as "Jos\xe9" cannot cross the plugin boundary unchanged.
+func checkWireStringFields(c *core.Ctx) {
+	p := c.Prog
+	pkg := p.Pkg(pluginsPkg)
+	key := pluginsPkg + ".Value/string payload"
+	if pkg == nil {
+		c.Unknown("WIRESTR", key, 0, "package not found")
+		return
+	}
+	obj := pkg.Types.Scope().Lookup("Value")
+	if obj == nil {
+		c.Unknown("WIRESTR", key, 0, "generated message Value not found")
+		return
+	}
+	st, ok := obj.Type().Underlying().(*types.Struct)
+	if !ok {
+		c.Unknown("WIRESTR", key, obj.Pos(), "Value is not a struct")
+		return
+	}
+	// which field does NativeValueToProto fill from value.Str?
+	fn := p.Func(pluginsPkg, "NativeValueToProto")
+	field := ""
+	if fn != nil {
+		ast.Inspect(fn.Decl.Body, func(n ast.Node) bool {
+			switch v := n.(type) {
+			case *ast.KeyValueExpr:
+				if strings.HasSuffix(core.ExprStr(v.Value), ".Str") {
+					field = core.ExprStr(v.Key)
+				}
+			case *ast.AssignStmt:
+				if len(v.Lhs) == 1 && len(v.Rhs) == 1 && strings.HasSuffix(core.ExprStr(v.Rhs[0]), ".Str") {
+					if sel, ok := v.Lhs[0].(*ast.SelectorExpr); ok {
+						field = sel.Sel.Name
+					}
+				}
+			}
+			return true
+		})
+	}
+	if field == "" {
+		c.Unknown("WIRESTR", key, obj.Pos(), "the message field filled from Value.Str was not found in NativeValueToProto")
+		return
+	}
+	for i := 0; i < st.NumFields(); i++ {
+		f := st.Field(i)
+		if f.Name() != field {
+			continue
+		}
+		tag := st.Tag(i)
+		isString := f.Type().String() == "string"
+		proto3 := strings.Contains(tag, "proto3")
+		c.Decide(!(isString && proto3), "WIRESTR", key, f.Pos(), 1, "carried as bytes",
+			fmt.Sprintf("the message field %s that carries Value.Str is a proto3 string (tag %q): proto3 strings must be valid UTF-8, so a string value holding other bytes (latin-1 data read from a csv file, \"Jos\\xe9\") is rejected by Marshal or arrives with the bytes replaced — it does not come out of the wire encoding equal to what went in", field, tag))
+		return
+	}
+	c.Unknown("WIRESTR", key, obj.Pos(), "field "+field+" not found in the generated struct")
 }
